@@ -13,3 +13,12 @@ Definition ind_run {S} (init : outcome S) (next : S -> candle (N := NumF64) -> S
   | Err _ => [T_ERR]
   | Panic _ => [T_PANIC]
   end.
+
+From Yata Require Import Spec.Hist Spec.MethodDefs Spec.IndicatorDefs.
+(** the published formula evaluated from scratch after every candle (values only) *)
+Fixpoint ind_spec (vals : candle (N := NumF64) -> list (candle (N := NumF64)) -> list float)
+    (c0 : candle (N := NumF64)) (rcs cs : list (candle (N := NumF64))) : list Z :=
+  match cs with
+  | [] => []
+  | c :: r => map f64_bits (vals c0 (c :: rcs)) ++ ind_spec vals c0 (c :: rcs) r
+  end.
